@@ -31,6 +31,7 @@ type xMsg struct {
 	OIDs   []uint32
 	Raw    []byte
 	BindID int
+	Lim    int // Execute row limit: 0 or a value no smaller than the rows any scripted statement writes
 }
 
 func (m xMsg) bytes() []byte {
@@ -44,7 +45,7 @@ func (m xMsg) bytes() []byte {
 	case "descP":
 		return pg.Describe('P', m.Portal)
 	case "exec":
-		return pg.Execute(m.Portal, 0)
+		return pg.Execute(m.Portal, uint32(m.Lim))
 	case "closeS":
 		return pg.Close('S', m.Name)
 	case "closeP":
@@ -552,6 +553,14 @@ func judgeHistoryY(c *core.Ctx, env *hs.Env, h []xMsg, cs any, yield func()) (ok
 	if err := cl.StartupOK("u"); err != nil {
 		c.Violate("startup", "plain startup failed", err.Error(), cs)
 		return false, run
+	}
+	// row limits of Execute: "no limit" or a limit that the (at most two) rows of a scripted statement
+	// never reach, where "all rows, then CommandComplete" is what every reading of the protocol demands
+	h = append([]xMsg(nil), h...)
+	for i := range h {
+		if h[i].K == "exec" {
+			h[i].Lim = []int{0, 0, 2, 3, 1000, 1<<31 - 1}[core.H64(fmt.Sprint(i, h[i].Portal, len(h)))%6]
+		}
 	}
 	states := []*xState{newXState()}
 	viol := func(i int, rule, sig, detail string) {
